@@ -26,6 +26,13 @@ func main() {
 		for _, id := range props.IDs() {
 			fmt.Println(id)
 		}
+	case "debug":
+		p, err := ir.Load(ir.RepoDir(), ir.BuildCtx{}, nil)
+		if err != nil {
+			fmt.Fprintln(os.Stderr, err)
+			os.Exit(2)
+		}
+		props.Debug(p, os.Args[2])
 	case "check":
 		if len(os.Args) < 3 {
 			usage()
